@@ -45,4 +45,20 @@ func init() {
 	// ---------------- E14 (error flow)
 	mut("C14", "TransformReceiver tests ok before the transform's error", "freighter/go/freightfluence/receiver.go",
 		"			if err != nil {\n				return err\n			}\n			if !ok {\n				continue o\n			}", "			if !ok {\n				continue o\n			}\n			if err != nil {\n				return err\n			}", "C14.ERR")
+	mut("C14", "expired tokens are typed as such only for some errors", "core/pkg/service/auth/errors.go",
+		"errors.CheapIs(err, ErrExpiredToken)", "errors.CheapIs(err, ErrExpiredToken) && !errors.CheapIs(err, ErrInvalidToken)", "C14.R1")
+	mut("C14", "gRPC client Send no longer refuses after CloseSend", "freighter/go/grpc/stream.go",
+		"	if c.closeSent {\n		return freighter.ErrStreamClosed\n	}\n	tReq", "	tReq", "C14.R3.sticky")
+	mut("C14", "WebSocket client Send refuses after CloseSend only when the peer also closed", "freighter/go/http/stream_client.go",
+		"	if s.sendClosed {\n		return freighter.ErrStreamClosed", "	if s.sendClosed && s.peerCloseErr != nil {\n		return freighter.ErrStreamClosed", "C14.R3.sticky")
+	mut("C14", "mock client Send tests the receive error only", "freighter/go/mock/stream.go",
+		"func (c *ClientStream[RQ, RS]) Send(req RQ) error {\n	if c.sendErr != nil {\n		return c.sendErr\n	}\n", "func (c *ClientStream[RQ, RS]) Send(req RQ) error {\n", "C14.R3.sticky")
+	mut("C14", "mock exec forwards a nil result untranslated when the context is done", "freighter/go/mock/stream.go",
+		"	if errPayload.Type == errors.TypeNil {", "	if errPayload.Type == errors.TypeNil && ctx.Err() == nil {", "C14.R2.terminal")
+	mut("C14", "WebSocket Receive lets a close message without an error through as data", "freighter/go/http/stream.go",
+		"		if c.peerCloseErr == nil {\n			c.peerCloseErr = freighter.EOF\n		}\n", "", "C14.R3.sticky")
+	mut("C14", "WebSocket Receive treats close messages with a payload as data", "freighter/go/http/stream.go",
+		"	if msg.Type == WSMessageTypeClose {", "	if msg.Type == WSMessageTypeClose && msg.Err.Type != errors.TypeNil {", "C14.R3.sticky")
+	mut("C14", "mock server Receive returns terminal messages of cancelled streams as data", "freighter/go/mock/stream.go",
+		"		if msg.error.Type != errors.TypeEmpty {\n			s.receiveErr = errors.Decode(s.ctx, msg.error)\n			return req, s.receiveErr\n		}", "		if msg.error.Type != errors.TypeEmpty {\n			s.receiveErr = errors.Decode(s.ctx, msg.error)\n			return req, nil\n		}", "C14.R3.sticky")
 }
